@@ -83,7 +83,7 @@ def prune(keep):
         return
     ds = [d for d in os.listdir(BUILD) if os.path.isdir(os.path.join(BUILD, d)) and d != keep and len(d) == 16]
     ds.sort(key=lambda d: os.path.getmtime(os.path.join(BUILD, d)))
-    for d in ds[:-10]:  # several trees can be in use at the same time (seeded-change evaluations next to the normal runs)
+    for d in ds[:-24]:  # several trees can be in use at the same time (seeded-change evaluations next to the normal runs)
         shutil.rmtree(os.path.join(BUILD, d), ignore_errors=True)
 
 
